@@ -98,8 +98,13 @@ def _pair_job(job):
         for j in range(len(SPELL)):
             importer = kp.HumdrumPitchImporter()
             exporter = kp.HumdrumPitchExporter()
-            imp(importer, TEXT[i])
+            try:
+                first_obj = importer.import_pitch(TEXT[i])       # keep the object the first import returned ...
+            except Exception:
+                first_obj = None
             r = imp(importer, TEXT[j])
+            if first_obj is not None and triple(first_obj) != SPELL[i]:      # ... a later import must not rewrite it
+                acc.violation(Viol('import-history', 'a-later-import-rewrites-a-pitch-returned-earlier', {'history': [TEXT[i], TEXT[j]]}, SPELL[i], triple(first_obj)))
             acc.count('transitions', 2)
             acc.count('evaluations')
             acc.state(('pair', i, j))
@@ -108,13 +113,20 @@ def _pair_job(job):
             if r != ('ok', SPELL[j]):
                 acc.violation(Viol('import-history', 'result-depends-on-previous-import', {'history': [TEXT[i], TEXT[j]]}, SPELL[j], r))
             pi, pj = mk(SPELL[i]), mk(SPELL[j])
+            before_i = snap(pi)
             exp(exporter, pi)
             o = exp(exporter, pj)
+            if snap(pi) != before_i:         # exporting another pitch through the same exporter must not touch the first object
+                acc.violation(Viol('export-history', 'a-later-export-rewrites-a-pitch-exported-earlier', {'history': [TEXT[i], TEXT[j]]}, before_i, snap(pi)))
+            elif j % 7 == 0 and exp(kp.HumdrumPitchExporter(), pi) != ('ok', TEXT[i]):
+                acc.violation(Viol('export-history', 'a-later-export-rewrites-a-pitch-exported-earlier', {'history': [TEXT[i], TEXT[j]]}, TEXT[i], None))
             acc.count('transitions', 2)
             if o != ('ok', TEXT[j]):
-                # only blame the history if a fresh exporter gets it right
                 if exp(kp.HumdrumPitchExporter(), mk(SPELL[j])) == ('ok', TEXT[j]):
                     acc.violation(Viol('export-history', 'result-depends-on-previous-export', {'history': [TEXT[i], TEXT[j]]}, TEXT[j], o))
+                else:
+                    # a fresh exporter instance is wrong too: state shared between instances (or simply a wrong spelling)
+                    acc.violation(Viol('export-history', 'wrong-spelling-after-other-exports-in-the-same-process', {'history': [TEXT[i], TEXT[j]]}, TEXT[j], o))
     return acc
 
 
